@@ -1,14 +1,40 @@
-(* C02 — Dynamic values survive encode/decode unchanged, byte for byte.  Theorems only. *)
-From QV Require Import Value ParseOpt WireRefute.
+(* C02 — Dynamic values survive encode/decode unchanged, byte for byte.  Theorems only;
+   proofs in theories/ValueProofs.v, WireProofs.v, SigParseProofs.v. *)
+From QV Require Import Value WireDefs ValueProofs ParseOpt WireTop WireRefute.
 Local Open Scope N_scope.
 
-(* refutations for the pinned behaviours (defect switches) *)
+(* every well-formed dynamic value, at any nesting depth, followed by any bytes: the decoder
+   (value.NewValue over the PEG model of signature.Parse) returns the value itself and
+   consumes exactly its encoding.  wf_dval = within the decoder's own limits; an opaque value
+   carries any signature of the grammar that NewValue does not special-case, with well-typed data. *)
+Theorem C02_roundtrip : forall c v rest, value_reader_no_len c = false -> wf_dval v ->
+  new_value parse_opt c (enc_dval v ++ rest) = ROk (v, rest).
+Proof. exact value_roundtrip_top. Qed.
+Print Assumptions C02_roundtrip.
+
+(* hence re-encoding the decoded value reproduces the bytes *)
+Theorem C02_reencode : forall c v rest, value_reader_no_len c = false -> wf_dval v ->
+  exists v', new_value parse_opt c (enc_dval v ++ rest) = ROk (v', rest) /\ enc_dval v' = enc_dval v.
+Proof. exact value_reencode. Qed.
+Print Assumptions C02_reencode.
+
+(* the data of an opaque value: the signature-driven reader returns exactly the bytes it consumed *)
+Theorem C02_opaque_data : forall c v t fuel rest, value_reader_no_len c = false ->
+  good_ty t = true -> has_ty v t = true -> (dyn_depth v <= fuel)%nat ->
+  sig_read parse_opt c fuel t (spec_enc v ++ rest) = ROk (spec_enc v, rest).
+Proof. exact sig_read_spec_top. Qed.
+Print Assumptions C02_opaque_data.
+
+(* refutations: the pinned valueReader (switch value_reader_no_len), and the limits the
+   encoder does not apply (findings list_over_4096 / raw_over_10MiB) *)
 Theorem C02_refuted_value_reader :
   exists v, new_value parse_opt only_value_reader (enc_dval opq_sm) = ROk (v, []) /\ enc_dval v <> enc_dval opq_sm.
 Proof. exact value_reencode_refuted. Qed.
 Print Assumptions C02_refuted_value_reader.
-
 Theorem C02_refuted_list_over_4096 :
   exists l, new_value parse_opt wclean (enc_dval (DList (repeat DVoid 4097))) = RErr l.
-Proof. exact value_unbounded_refuted. Qed.
+Proof. exact WireRefute.value_unbounded_refuted. Qed.
 Print Assumptions C02_refuted_list_over_4096.
+
+Example C02_nonvacuous : wf_dval ex_dval.
+Proof. exact ex_dval_wf. Qed.
